@@ -215,6 +215,10 @@ def _tcell(case, out):
             if not second:
                 out.fail("threat-without-signal2", "%s/%s with violations %s but no second signal" % (lvl, act, viol), d)
                 return
+            if viol == ["canary_accuracy"] and second == ["canary"]:
+                # the only baseline violation *is* the failed canary, and the failed canary is also the only second signal: one signal, counted twice
+                out.fail("signal2-not-independent:canary-only", "%s/%s although the failed canary probes are the only evidence (behaviour is inside the baseline; no flag, no streak)" % (lvl, act), d)
+                return
         if viol and bool(r.violations) is False:
             out.fail("violations-not-reported", "baseline violated (%s) but the response lists no violation" % viol, d)
             return
